@@ -120,6 +120,9 @@ def spell_string(rng, s, p_escape=.3, quote=None):
             if is_hex:
                 nd = len(t) - 1
         pieces.append((t, is_hex, nd))
+    # line continuations: a backslash followed by a newline inside a string stands for nothing, wherever it is written
+    while rng.random() < .12:
+        pieces.insert(rng.randrange(len(pieces) + 1), ('\\' + rng.choice(['\n', '\n', '\r\n', '\f', '\r']), False, 0))
     return q + _join(rng, pieces, 'string', False) + q
 
 
